@@ -375,7 +375,7 @@ structure Run where
 
 /-- `_read_others` (`incoming.py:268-302`) -/
 def readOthers (cfg : Cfg) (buf : Bytes) (h : Hdr) (st : St) : St × List WRecord × Option PyExc :=
-  readRecords cfg buf (Gen.Incoming.others_count h.nan h.nau h.nad) st
+  readRecords cfg buf (Gen.Incoming.r_loop_count (Gen.Incoming.others_count h.nan h.nau h.nad)) st
 
 /-- `_read_others` under a `try … except DECODE_EXCEPTIONS`, then what `answers()` returns.
 `inInit`: the `try` is the constructor's (eager path), so an uncaught exception leaves no object;
@@ -400,7 +400,7 @@ def parseWith (cfg : Cfg) (buf : Bytes) : Run :=
     -- invalid; `answers()` finds `_did_read_others` false and runs `_read_others` with the counts read so far
     if caught e then others cfg buf hr.2.1 [] hr.1 false false false else ⟨.escapedInit e, hr.1⟩
   | none =>
-    let qr := readQuestions cfg buf hr.2.1.nq hr.1
+    let qr := readQuestions cfg buf (Gen.Incoming.q_loop_count hr.2.1.nq) hr.1
     match qr.2.2 with
     | some e =>
       if caught e then others cfg buf hr.2.1 qr.2.1 qr.1 false false false else ⟨.escapedInit e, qr.1⟩
